@@ -745,6 +745,16 @@ class Escapes:
                     v = x.value
                     if isinstance(v, (ast.Tuple, ast.List)) and len(v.elts) == n:
                         continue
+                    if isinstance(v, ast.Name):
+                        # the sequence was put in a local first: `fields = parse(x)` ... `a, b, c = fields`
+                        ns_v = rd.cfg_nodes_of(x)
+                        dv_ = rd.unique(ns_v[0], v.id) if ns_v else None
+                        if dv_ is not None and dv_.kind == "assign" and isinstance(dv_.value, ast.Call):
+                            cal0 = self.resolve(fi, dv_.value)
+                            if cal0 is not None and self.returns_arity(cal0) == n:
+                                continue
+                        if dv_ is not None and dv_.kind == "assign" and isinstance(dv_.value, (ast.Tuple, ast.List)) and len(dv_.value.elts) == n and not any(isinstance(y, ast.Starred) for y in dv_.value.elts):
+                            continue
                     if isinstance(v, ast.Call):
                         cal = self.resolve(fi, v)
                         if cal is not None and self.returns_arity(cal) == n:
